@@ -1,7 +1,7 @@
 """DF - the mixed-history model: histories that MIX the action families of the twenty properties.
 
-M : TLC on spec/DF.tla (one heap of regions, meshes with subregions, fields with validity identity; 30 named
-    actions from seven families): every history of depth 1 over the full alphabet and four initial object graphs,
+M : TLC on spec/DF.tla (one heap of regions, meshes with subregions, fields with validity and value-array identity; 43 named
+    actions from eleven families): every history of depth 1 over the full alphabet and four initial object graphs,
     every history of depth 2 over a reduced alphabet (depth 3 over the sharing-prone calls in thorough), plus
     `tlc -simulate` for deep random mixed histories.  State clauses DF_RegionNormal / MeshNormal / FieldShapes /
     SubregionsWellFormed / OwnValidity / Labels and thirteen step clauses (DF_OperandsUnchanged, DF_ValidityRule,
